@@ -165,6 +165,14 @@ func main() {
 			writeCase(w, c, safeExec(p, c))
 		}
 	default:
+		// property-specific sub-commands (e.g. a solo run in a fresh process)
+		if f, ok := subcommands[os.Args[1]]; ok {
+			f(w, os.Args[2:])
+			return
+		}
 		os.Exit(2)
 	}
 }
+
+// subcommands lets a property register a helper mode of the harness binary (run through os.Executable()).
+var subcommands = map[string]func(w *bufio.Writer, args []string){}
